@@ -37,7 +37,7 @@ ASSUMPTIONS = [
     "revision-5/6 passwords are limited to strings on which SASLprep reduces to NFKC; R<=4 *correct* passwords are Latin-1",
     "V4 files use the same crypt filter for strings and streams (the library reports others as unsupported, a documented outcome)",
 ]
-PROBES = ["run under settings.STRICT", "right password after a wrong one, same parser", "cross-reference table unusable (body scan)", "V1R2 RC4-40", "V2R3 RC4", "V4R4 V2", "V4R4 AESV2", "V4R4 Identity", "V5R5 AESV3", "V5R6 AESV3", "owner password differs", "empty user password", "non-ASCII password", "long password", "no ID", "EncryptMetadata false", "object stream", "generation > 0", "object number above 65535", "string inside stream dictionary", "eviction happened", "wrong password non-Latin-1", "two encrypted documents read alternately"]
+PROBES = ["run under settings.STRICT", "right password after a wrong one, same parser", "cross-reference table unusable (body scan)", "V1R2 RC4-40", "V2R3 RC4", "V4R4 V2", "V4R4 AESV2", "V4R4 Identity", "V5R5 AESV3", "V5R6 AESV3", "owner password differs", "empty user password", "non-ASCII password", "long password", "no ID", "/ID elements differ", "EncryptMetadata false", "object stream", "generation > 0", "object number above 65535", "string inside stream dictionary", "eviction happened", "wrong password non-Latin-1", "two encrypted documents read alternately"]
 TIERS = {
     "quick": {"batches": 16, "runs": 400, "budget_s": 90},
     "thorough": {"batches": 128, "runs": 500, "budget_s": 1200},
@@ -61,8 +61,11 @@ def setup():
     _ready = True
 
 
-PW_POOL = ["", "user", "owner", "a", "pass word", "pässwörd", "0123456789012345678901234567890123456789", "é", "x" * 33, "Secret-1"]
-PW_POOL_UNI = PW_POOL + ["абв", "パス", "naïve café " * 12, "é" * 64, "x" + "é" * 70, "a" * 126 + "ж", "x²+y²", "5µm", "1ª planta ¾", "ﬁne Ⅻ", "ＡＢＣ１２３", "a\u00a0b"]
+PW_BASE = ["", "user", "owner", "a", "pass word", "pässwörd", "0123456789012345678901234567890123456789", "é", "x" * 33, "Secret-1"]
+PW_POOL = PW_BASE + ["a\u00a0b", "soft\u00adhyphen", "c1\u0080\u009f", "del\x7f\x1b", "£¥"]
+# (revisions 2-4 take the password as Latin-1 bytes: every character up to U+00FF is one byte, also the no-break space, the
+# soft hyphen and the C0/C1 controls)
+PW_POOL_UNI = PW_BASE + ["абв", "パス", "naïve café " * 12, "é" * 64, "x" + "é" * 70, "a" * 126 + "ж", "x²+y²", "5µm", "1ª planta ¾", "ﬁne Ⅻ", "ＡＢＣ１２３", "a\u00a0b"]
 # (the last six change under NFKC / SASLprep: a writer derives the key from the prepared form, the user types the raw one)
 
 
@@ -156,6 +159,13 @@ def gen_config(t, ctx):
     docid = None if t.coin(20, 100, "cfg.noid") else bytes(t.draw(256, "cfg.id") for _ in range(16))
     if docid is None:
         ctx.probe("no ID")
+    # the second element of /ID is the changing identifier: the key uses the first one only, whatever the second is
+    id2 = None
+    if docid is not None and t.coin(40, 100, "cfg.id2"):
+        id2 = t.pick(["other", "other", "empty-first", "single", "empty-second"], "cfg.id2.kind")
+        if id2 == "empty-first":
+            docid = b""
+        ctx.probe("/ID elements differ")
     em = not t.coin(35, 100, "cfg.em")
     keybits = t.pick([40, 48, 64, 96, 128], "cfg.bits")
     if kind == "V1R2":
@@ -172,11 +182,27 @@ def gen_config(t, ctx):
         ctx.probe("V5R%d AESV3" % r)
     if not em and v >= 4:
         ctx.probe("EncryptMetadata false")
-    return dict(v=v, r=r, keybits=keybits, cfm=cfm, user=user, owner=owner, p=p, docid=docid, em=em)
+    return dict(v=v, r=r, keybits=keybits, cfm=cfm, user=user, owner=owner, p=p, docid=docid, em=em, id2=id2)
+
+
+def id_array(cfg):
+    first = Str(cfg["docid"])
+    kind = cfg.get("id2")
+    if kind in ("other", "empty-first"):
+        return [first, Str(bytes((b * 7 + 3) % 256 for b in (cfg["docid"] or b"0123456789abcdef")))]
+    if kind == "single":
+        return [first]
+    if kind == "empty-second":
+        return [first, Str(b"")]
+    return [first, first]
 
 
 def wrong_passwords(t, cfg, ctx):
     cands = ["wrong", "User", " ", "€ uro", cfg["user"] + "x", (cfg["owner"] or "zz")[:-1] + "_", "ф", "x" * 200]
+    # passwords that password preparation (SASLprep, revisions 5 and 6) refuses: control characters, mixed directionality
+    cands += ["ctl\x7f\x1b", "\u05d0a1"]
+    # look-alikes of the right password in another single-byte encoding (0xA0 is the Euro sign, 0x80 the bullet in PDFDocEncoding)
+    cands.append(cfg["user"].replace("\u00a0", "\u20ac").replace("\u0080", "\u2022").replace("\u00ad", "-"))
     out = []
     for _ in range(2):
         w = t.pick(cands, "wrong.pw")
@@ -228,7 +254,7 @@ def run_inner(tape, ctx, item=None):
             ctx.probe("object stream")
     trailer_extra = {b"Encrypt": h.encrypt_dict(explicit_length=t.coin(50, 100, "cfg.explicit"))}
     if cfg["docid"] is not None:
-        trailer_extra[b"ID"] = [Str(cfg["docid"]), Str(cfg["docid"])]
+        trailer_extra[b"ID"] = id_array(cfg)
     narrow = form == "stream" and t.coin(35, 100, "w3.zero")  # /W [1 n 0] where every generation and index is 0
     plain_pdf = docs.build_pdf(objects, 1, info=7, form=form, pack=pack, gens=gens).getvalue()
     fw = docs.build_pdf(objects, 1, info=7, form=form, pack=pack, gens=gens, encrypt=h, trailer_extra=trailer_extra, narrow_w3=narrow)
@@ -247,7 +273,7 @@ def run_inner(tape, ctx, item=None):
             k += 1
         enc_pdf = enc_pdf[:j] + b"0" * (k - j) + enc_pdf[k:]  # startxref 0: the file header is no cross-reference section
         ctx.probe("cross-reference table unusable (body scan)")
-    desc = "V%d R%d %s keybits=%d user=%r owner=%r P=%d id=%s EncryptMetadata=%s form=%s pack=%s%s" % (cfg["v"], cfg["r"], cfg["cfm"], cfg["keybits"], cfg["user"], cfg["owner"], cfg["p"], "yes" if cfg["docid"] else "no", cfg["em"], form, pack, " startxref-lost" if lost_xref else "")
+    desc = "V%d R%d %s keybits=%d user=%r owner=%r P=%d id=%s EncryptMetadata=%s form=%s pack=%s%s" % (cfg["v"], cfg["r"], cfg["cfm"], cfg["keybits"], cfg["user"], cfg["owner"], cfg["p"], ("yes" if cfg["docid"] else "no" if cfg["docid"] is None else "empty") + ("/" + cfg["id2"] if cfg.get("id2") else ""), cfg["em"], form, pack, " startxref-lost" if lost_xref else "")
     scen = []
     try:
         want_text = extract_text(BytesIO(plain_pdf))
@@ -347,7 +373,7 @@ def run_inner(tape, ctx, item=None):
         h2 = crypt.Handler(cfg2["v"], cfg2["r"], cfg2["keybits"], cfg2["cfm"], cfg2["user"], cfg2["owner"], cfg2["p"], cfg2["docid"], cfg2["em"], rnd)
         te2 = {b"Encrypt": h2.encrypt_dict()}
         if cfg2["docid"] is not None:
-            te2[b"ID"] = [Str(cfg2["docid"]), Str(cfg2["docid"])]
+            te2[b"ID"] = id_array(cfg2)
         enc2 = docs.build_pdf(objects, 1, info=7, form=form, pack=pack, gens=gens, encrypt=h2, trailer_extra=te2).getvalue()
         ctx.probe("two encrypted documents read alternately")
         try:
